@@ -25,7 +25,8 @@ EXPLANATION = (
     "outside the search loop; generate_assignments keys blob and lookup by the same member id."
     ' Also: the partition snapshot covers every requested topic (R6, finding F42), the lists handed to the second generation come from the load alone, sorts have no key function.'
 )
-SHARED = [('C05', ['R3'], "each member decodes from the leader's encoded assignment exactly what was encoded (blob encoder/decoder agree)")]
+SHARED = [('C05', ['R3'], "each member decodes from the leader's encoded assignment exactly what was encoded (blob encoder/decoder agree)"),
+          ('C16', ['R1'], 'what a member decoded is what it consumes: one partition consumer for every (topic, partition) of its share')]
 ASSUMPTIONS = ["itertools.cycle yields its elements round-robin; sorted() is deterministic for str/int keys"]
 PROTO = "_group:_ConsumerProtocol"
 
@@ -66,6 +67,18 @@ def run(ctx):
     r.check(ok, "%s#one-append-per-partition" % rra.qname,
             "an iteration of the assignment loop can append the partition zero or several times", where(rra, main.stmt),
             "a partition is assigned to nobody, or to two members")
+    # the list appended to belongs to one (member, topic): no construct that puts ONE mutable object under several keys
+    shared = []
+    for x in ast.walk(rra.node):
+        if isinstance(x, ast.Call) and call_name(x) == "fromkeys" and len(x.args) == 2 and (isinstance(x.args[1], (ast.List, ast.Dict, ast.Set, ast.ListComp, ast.DictComp)) or (
+                isinstance(x.args[1], ast.Call) and call_name(x.args[1]) in ("list", "dict", "set", "defaultdict", "OrderedDict"))):
+            shared.append("line %d: `%s`" % (x.lineno, norm(x, 60)))
+        if isinstance(x, ast.BinOp) and isinstance(x.op, ast.Mult) and any(isinstance(o, ast.List) and any(isinstance(e, (ast.List, ast.Dict, ast.Set)) for e in o.elts)
+                                                                           for o in (x.left, x.right)):
+            shared.append("line %d: `%s`" % (x.lineno, norm(x, 60)))
+    r.check(not shared, "%s#slots-not-aliased" % rra.qname, "one mutable object is stored under several keys of the assignment: %s" % shared,
+            where(rra, main.stmt), "a member subscribed to two topics: every topic of the member lists the union of its partitions - "
+            "partitions with two owners, partitions that do not exist")
     need(apps, "no append of the partition")
     a = apps[0]
 
@@ -241,6 +254,34 @@ def run(ctx):
         inner = v.args[0] if isinstance(v, ast.Call) and call_name(v) in ("list", "sorted", "tuple") and len(v.args) == 1 else v
         ogs = value_origins(cl_, n_.id, inner, params=ltp.params) if isinstance(inner, ast.Name) else [(n_.id, inner)]
         oksn = oksn and bool(ogs) and all(norm(e_) in ("self.topic_partitions[%s]" % key_, "self.topic_partitions.get(%s)" % key_) for _d, e_ in ogs)
+    # ... only of a topic whose metadata carries no error (a topic that is coming up lists a partial partition set next to
+    # LEADER_NOT_AVAILABLE: assigning from it leaves the missing partitions to nobody)
+    import re as _re6
+    fl6 = ctx.facts(ltp, kill_on_suspend=False)
+    err_ok = bool(snaps)
+    for n_, t, v in snaps:
+        good = False
+        for tx, pol in fl6[n_.id]:
+            if "metadata_error_for_topic(" not in tx and "topic_errors" not in tx:
+                # a local holding the error: `errno = self.metadata_error_for_topic(topic)`
+                try:
+                    te_ = ast.parse(tx, mode="eval").body
+                except SyntaxError:
+                    continue
+                nm_ = [y for y in ast.walk(te_) if isinstance(y, ast.Name)]
+                if len(nm_) != 1:
+                    continue
+                ogs_ = value_origins(cl_, n_.id, nm_[0], params=ltp.params)
+                if not ogs_ or len(ogs_) != 1 or not any(k_ in norm(ogs_[0][1]) for k_ in ("metadata_error_for_topic(", "topic_errors")):
+                    continue
+                tx = tx.replace(nm_[0].id, norm(ogs_[0][1]))
+            if (_re6.search(r"(!= 0|> 0)$", tx) and not pol) or (_re6.search(r"== 0$", tx) and pol) or (tx.startswith("not ") and pol and " " not in tx[4:].split("(")[0]) or (
+                    not pol and _re6.fullmatch(r"self\.metadata_error_for_topic\([^()]*\)|self\.topic_errors\.get\([^()]*\)|self\.topic_errors\[[^\[\]]*\]", tx)):
+                good = True
+        err_ok = err_ok and good
+    r.check(err_ok, "%s#snapshot-only-of-error-free-topics" % ltp.qname, "a topic enters the snapshot without its metadata error having been found to be 0",
+            where(ltp, snaps[0][0].stmt if snaps else ltp.node), "a topic coming up (LEADER_NOT_AVAILABLE plus a partial partition list): the leader assigns "
+            "only the partitions visible at that moment, the rest go to no member")
     # ... for every topic that was asked about: the loop that fills the map runs over the requested names (the parameter,
     # possibly coerced), not over whatever the reply chose to list
     cover_ok, cover_why = bool(snaps), "no loop fills the snapshot"
